@@ -258,7 +258,8 @@ TEXT = {
           "later state over its old snapshot, still shows its commit on every key and every ordered scan although later Gets extend "
           "the overlay object it points to in place (old_views_survive_in_place_extension: apply-without-override only adds keys no "
           "commit in between touched, with the value they have in the old snapshot); answers depend only on the store, so any eviction "
-          "schedule is invisible (answers_depend_only_on_store, evictions_are_invisible); a commit keeps every entry valid "
+          "schedule is invisible (answers_depend_only_on_store, evictions_are_invisible; whole runs: cached_run_eq_uncached_run, "
+          "eviction_schedules_are_invisible); a commit keeps every entry valid "
           "(add_keeps_cache_valid, cache_entries_valid); a tag only has to be a lower bound of what the object holds "
           "(tag_lower_bound_suffices: the first-level entry that stays behind with an older tag is harmless). Tied by regenerated AST "
           "facts (Gen/VdbCache: every access to the cache fields in the package, Get's lookup order / loop bounds / filing, Pop's "
